@@ -49,7 +49,7 @@ func VerifC27WriteRequestsInterleaved(a *Request, wa io.Writer, b *Request, wb i
 	select {
 	case <-ga.entered:
 	case <-done:
-	case <-time.After(5 * time.Second):
+	case <-time.After(30 * time.Second):
 		close(ga.gate)
 		return true
 	}
@@ -57,7 +57,7 @@ func VerifC27WriteRequestsInterleaved(a *Request, wa io.Writer, b *Request, wb i
 	close(ga.gate)
 	select {
 	case <-done:
-	case <-time.After(5 * time.Second):
+	case <-time.After(30 * time.Second):
 		return true
 	}
 	return false
